@@ -78,23 +78,29 @@ ICall(c, rs, try) ==
 
 IReturn ==
     /\ Return
-    /\ fr' = Pop(fr)
+    /\ fr' = SubSeq(fr, 1, Len(stack'))
     /\ dao' = IF Top(stack).snap.has THEN PersistTop(dao) ELSE dao
 
-IUpdate(c, g) ==
-    /\ UpdateGroups(c, g)
+\* callDeployDeferrable -> contract.CallFromNative: the native's own context, then the contract's with the NEW manifest
+CbFrames(f, c, g, cb) ==
+    IF cb THEN f \o << IFrame(MgmtHash, f[Len(f)].hash, TRUE, {}, GroupsIn(View(dao), f[Len(f)].hash)),
+                       IFrame(c, MgmtHash, TRUE, g, {}) >>
+    ELSE f
+
+IUpdate(c, g, cb) ==
+    /\ UpdateGroups(c, g, cb)
     /\ dao' = Write(dao, c, LiveE(g, View(dao)[c].uc + 1))
-    /\ UNCHANGED fr
+    /\ fr' = CbFrames(fr, c, g, cb)
 
 IDestroy(c) ==
     /\ Destroy(c)
     /\ dao' = Write(dao, c, IF Bug = "DestroyedStillGrouped" THEN [View(dao)[c] EXCEPT !.st = "dead"] ELSE DeadE)
     /\ UNCHANGED fr
 
-IDeploy(c, g) ==
-    /\ Deploy(c, g)
+IDeploy(c, g, cb) ==
+    /\ Deploy(c, g, cb)
     /\ dao' = Write(dao, c, LiveE(g, 0))
-    /\ UNCHANGED fr
+    /\ fr' = CbFrames(fr, c, g, cb)
 
 \* handleException unloads the contexts down to the catching one; every wrapped one discards its layer
 IThrow ==
@@ -119,7 +125,7 @@ INext == \/ IBeginTx \/ IReturn \/ IThrow \/ INextBlock
          \/ \E how \in {"HALT", "FAULT"} : IEndTx(how)
          \/ \E c \in Contracts : \/ \E rs \in BOOLEAN, try \in BOOLEAN : ICall(c, rs, try)
                                  \/ IDestroy(c)
-                                 \/ \E g \in SUBSET Groups : IUpdate(c, g) \/ IDeploy(c, g)
+                                 \/ \E g \in SUBSET Groups, cb \in BOOLEAN : IUpdate(c, g, cb) \/ IDeploy(c, g, cb)
 
 ISpec == IInit /\ [][INext]_vars
 
